@@ -24,6 +24,7 @@ pub fn xml_string(max_len: usize) -> impl Strategy<Value = String> {
     prop_oneof![
         8 => proptest::collection::vec(interesting_char(), 0..max_len.min(24)).prop_map(|v| v.into_iter().collect::<String>()),
         1 => Just("  leading and trailing  ".to_string()),
+        1 => Just("\u{FEFF}bom first".to_string()),
         1 => Just("a  b   c".to_string()),
         1 => Just("]]>".to_string()),
         1 => Just("&amp;".to_string()),
@@ -36,6 +37,7 @@ pub fn xml_string(max_len: usize) -> impl Strategy<Value = String> {
 pub fn utf16_string(max_len: usize) -> impl Strategy<Value = String> {
     prop_oneof![
         8 => xml_string(max_len),
+        1 => prop_oneof![Just("\u{FFFE}x".to_string()), Just("\u{FEFF}".to_string()), Just("\u{BBEF}\u{BF}z".to_string()), Just("a\u{FEFF}b".to_string())],
         1 => proptest::collection::vec(prop_oneof![proptest::char::range('\u{1}', '\u{1f}'), Just('\u{7f}'), Just('\u{FFFE}'), Just('\u{FFFF}')], 1..4).prop_map(|v| v.into_iter().collect::<String>()),
     ]
 }
